@@ -278,18 +278,17 @@ Theorem version_seen_then_version_rejected ds : forall fuel p tags sp a b r,
   Forall (fun t => match snd t with TTagDirective _ _ => True | _ => False end) ds ->
   toks_ahead p = ds ++ (sp, TVersionDirective a b) :: r -> (length ds < fuel)%nat ->
   match process_directives fuel p true tags with
-  | Parser.Err (PErr 2 m) => m = sp_start sp
-  | Parser.Err (PErr 21 _) => True
+  | Parser.Err (PErr s m) => (s = 2%N /\ m = sp_start sp) \/ s = 21%N
   | _ => False
   end.
 Proof.
   induction ds as [|[spd d] ds IH]; intros fuel p tags sp a b r HF HT HL.
   - destruct fuel as [|fuel]; [cbn in HL; lia|]. cbn [app] in HT.
-    rewrite (version_after_version_rejected fuel p sp a b r tags HT). reflexivity.
+    rewrite (version_after_version_rejected fuel p sp a b r tags HT). left; split; reflexivity.
   - destruct fuel as [|fuel]; [cbn in HL; lia|]. cbn [app] in HT.
     inversion HF as [|x l Hd HF']; subst. cbn [snd] in Hd. destruct d; try contradiction.
     cbn [process_directives]. rewrite (peek_norm _ _ _ HT). cbn beta iota.
-    destruct (negb (is_empty_str h) && has_key h tags); [exact I|].
+    destruct (negb (is_empty_str h) && has_key h tags); [right; reflexivity|].
     eapply IH; [exact HF' | reflexivity | cbn in HL; lia].
 Qed.
 
@@ -317,7 +316,7 @@ Lemma process_directives_run ds : forall fuel p vs tags t r,
   toks_ahead p = ds ++ t :: r -> (length ds < fuel)%nat ->
   match process_directives fuel p vs tags with
   | Parser.Ok q => toks_ahead q = t :: r
-  | Parser.Err (PErr 2 _) | Parser.Err (PErr 21 _) => True
+  | Parser.Err (PErr s _) => s = 2%N \/ s = 21%N
   | _ => False
   end.
 Proof.
@@ -329,8 +328,8 @@ Proof.
     inversion HF as [|x l Hd HF']; subst. cbn [snd] in Hd.
     cbn [process_directives]. rewrite (peek_norm _ _ _ HT).
     destruct d; cbn in Hd; try discriminate; cbn beta iota.
-    + destruct vs; [exact I|]. eapply IH; [exact HF' | exact Ht | reflexivity | cbn in HL; lia].
-    + destruct (negb (is_empty_str h) && has_key h tags); [exact I|].
+    + destruct vs; [left; reflexivity|]. eapply IH; [exact HF' | exact Ht | reflexivity | cbn in HL; lia].
+    + destruct (negb (is_empty_str h) && has_key h tags); [right; reflexivity|].
       eapply IH; [exact HF' | exact Ht | reflexivity | cbn in HL; lia].
 Qed.
 
@@ -339,8 +338,8 @@ Theorem directives_without_document_start_rejected p ds sp tk r :
   is_directive_tok tk = false -> tk <> TDocumentStart ->
   toks_ahead p = ds ++ (sp, tk) :: r ->
   match explicit_document_start p with
-  | Parser.Err (PErr 3 m) => m = sp_start sp       (* did not find expected <document start> *)
-  | Parser.Err (PErr 2 _) | Parser.Err (PErr 21 _) => True   (* or a directive of the run is itself in error *)
+  | Parser.Err (PErr s m) => (s = 3%N /\ m = sp_start sp)   (* did not find expected <document start> *)
+                             \/ s = 2%N \/ s = 21%N         (* or a directive of the run is itself in error *)
   | _ => False
   end.
 Proof.
@@ -348,8 +347,9 @@ Proof.
   assert (HL : (length ds < S (S (length (p_toks p))))%nat).
   { pose proof (toks_ahead_length p) as H. rewrite HT, app_length in H. cbn in H. lia. }
   pose proof (process_directives_run ds _ p false [] (sp, tk) r HF Hd HT HL) as HP.
-  destruct (process_directives _ p false []) as [q|e|n]; [|exact HP|contradiction].
-  rewrite (peek_norm _ _ _ HP). destruct tk; try reflexivity. congruence.
+  destruct (process_directives _ p false []) as [q|e|n]; [| |contradiction].
+  - rewrite (peek_norm _ _ _ HP). destruct tk; try (left; split; reflexivity). congruence.
+  - destruct e as [|s m]; [contradiction|]. right. exact HP.
 Qed.
 
 (* in particular: directives and then the end of the stream *)
@@ -357,8 +357,7 @@ Corollary directives_at_end_of_stream_rejected p ds sp r :
   Forall (fun t => is_directive_tok (snd t) = true) ds ->
   toks_ahead p = ds ++ (sp, TStreamEnd) :: r ->
   match explicit_document_start p with
-  | Parser.Err (PErr 3 m) => m = sp_start sp
-  | Parser.Err (PErr 2 _) | Parser.Err (PErr 21 _) => True
+  | Parser.Err (PErr s m) => (s = 3%N /\ m = sp_start sp) \/ s = 2%N \/ s = 21%N
   | _ => False
   end.
 Proof. intros HF HT. apply (directives_without_document_start_rejected p ds sp TStreamEnd r); auto. discriminate. Qed.
@@ -370,4 +369,262 @@ Theorem document_start_with_directive p sp tk r impl :
 Proof.
   intros Hd HT. unfold document_start. cbn [skip_document_ends]. pk HT.
   destruct tk; cbn in Hd; try discriminate; eexists; (split; [|reflexivity]); reflexivity.
+Qed.
+
+(* ------------------------------------------------------------------------------------------------ *)
+(* The clean global statement "an accepted token stream has balanced, properly matched flow brackets" *)
+(* is FALSE for the faithful model (and for the code): [flow_sequence_entry_mapping_key] consumes a      *)
+(* FlowSequenceEnd that directly follows '?' (parser.rs: self.skip() in flow_sequence_entry_mapping_key), *)
+(* so the text "[ ? ] ]" -- one '[' and two ']' -- is accepted.                                         *)
+(* ------------------------------------------------------------------------------------------------ *)
+Fixpoint flow_balanced (l : list token) (stk : list bool) : bool :=
+  match l with
+  | [] => false                                   (* no StreamEnd at all *)
+  | (_, t) :: r =>
+      match t with
+      | TStreamEnd => match stk with [] => true | _ => false end
+      | TFlowSequenceStart => flow_balanced r (true :: stk)
+      | TFlowMappingStart => flow_balanced r (false :: stk)
+      | TFlowSequenceEnd => match stk with true :: s => flow_balanced r s | _ => false end
+      | TFlowMappingEnd => match stk with false :: s => flow_balanced r s | _ => false end
+      | _ => flow_balanced r stk
+      end
+  end.
+
+Definition accepted_implies_balanced : Prop :=
+  forall toks keep se fuel, snd (parse_all fuel (init_parser toks keep) se []) = PDone -> flow_balanced toks [] = true.
+
+Definition sp0 : span := span_empty {| m_index := 0; m_line := 0; m_col := 0 |}.
+Definition stray_closer_tokens : list token :=   (* the tokens of "[ ? ] ]" *)
+  [(sp0, TStreamStart); (sp0, TFlowSequenceStart); (sp0, TKey); (sp0, TFlowSequenceEnd); (sp0, TFlowSequenceEnd); (sp0, TStreamEnd)].
+
+Theorem accepted_implies_balanced_refuted : ~ accepted_implies_balanced.
+Proof.
+  intros H. specialize (H stray_closer_tokens false SEnded 20%nat).
+  assert (E : snd (parse_all 20 (init_parser stray_closer_tokens false) SEnded []) = PDone) by (vm_compute; reflexivity).
+  specialize (H E). vm_compute in H. discriminate.
+Qed.
+
+(* ================================================================================================ *)
+(* Scanner layer, over the character-level StrInput instance [str_ops]                               *)
+(* ================================================================================================ *)
+Open Scope N_scope.
+
+(* ---- S1: escapes in double-quoted scalars.  [resolve_escape] is entered with the backslash at offset 0
+        and the escape character at offset 1 of the remaining input ---- *)
+Notation chars_of s := (si_chars (sc_in s)).
+
+Lemma assocc_none e l : ~ In e (map fst l) -> assocc e l = None.
+Proof.
+  induction l as [|[a b] l IH]; intros H; [reflexivity|]. cbn [assocc].
+  destruct (N.eqb_spec a e) as [->|Hne]; [exfalso; apply H; left; reflexivity|].
+  apply IH. intros Hin. apply H. right. exact Hin.
+Qed.
+
+Lemma code_length_other e : ~ In e (map fst code_length_table) -> code_length e = 0%nat.
+Proof.
+  unfold code_length. induction code_length_table as [|[a b] l IH]; intros H; [reflexivity|]. cbn [assocn].
+  destruct (N.eqb_spec a e) as [->|Hne]; [exfalso; apply H; left; reflexivity|].
+  apply IH. intros Hin. apply H. right. exact Hin.
+Qed.
+
+(* every code point that is neither a single-character escape of the generated table nor x/u/U: "unknown escape character" *)
+Theorem unknown_escape_rejected start (s : sc strin) :
+  let e := nth 1 (chars_of s) 0 in
+  ~ In e (map fst escape_table) -> ~ In e (map fst code_length_table) ->
+  resolve_escape str_ops start s = Err 31 start.
+Proof.
+  intros e H1 H2. unfold resolve_escape, bind, peekn. cbn [peek_nth str_ops]. unfold chr in *.
+  fold e. rewrite (assocc_none _ _ H1), (code_length_other _ H2). reflexivity.
+Qed.
+
+Lemma nth_skipn {A} k : forall (l : list A) j d, nth j (skipn k l) d = nth (k + j) l d.
+Proof.
+  induction k as [|k IH]; intros l j d; [reflexivity|].
+  destruct l as [|x l]; [destruct j; reflexivity|]. cbn [skipn Nat.add nth]. apply IH.
+Qed.
+
+Lemma read_hex_bad n : forall i acc start (s : sc strin),
+  (exists j, (j < n)%nat /\ is_hex (nth (i + j) (chars_of s) 0) = false) ->
+  read_hex str_ops n i acc start s = Err 30 start.
+Proof.
+  induction n as [|n IH]; intros i acc start s [j [Hj Hh]]; [lia|].
+  cbn [read_hex]. unfold bind, peekn. cbn [peek_nth str_ops]. unfold chr in *.
+  match goal with |- context [if ?b then _ else _] => destruct b eqn:E end; [|reflexivity].
+  apply IH. destruct j as [|j]; [rewrite Nat.add_0_r in Hh; congruence|].
+  exists j. split; [lia|]. replace (S i + j)%nat with (i + S j)%nat by lia. exact Hh.
+Qed.
+
+Definition hex_number (ds : list chr) : N := fold_left (fun a c => a * 16 + as_hex c) ds 0.
+
+Lemma skipn_cons_nth {A} i : forall (l : list A) c rest d, skipn i l = c :: rest -> nth i l d = c /\ skipn (S i) l = rest.
+Proof.
+  induction i as [|i IH]; intros l c rest d H.
+  - cbn in H. subst l. split; reflexivity.
+  - destruct l as [|x l]; [discriminate|]. cbn [skipn] in H. destruct (IH l c rest d H) as [HA HB].
+    split; [exact HA|]. exact HB.
+Qed.
+
+Lemma read_hex_ok n : forall i acc start (s : sc strin),
+  (n <= length (skipn i (chars_of s)))%nat -> forallb is_hex (firstn n (skipn i (chars_of s))) = true ->
+  read_hex str_ops n i acc start s
+  = Ok (fold_left (fun a c => a * 16 + as_hex c) (firstn n (skipn i (chars_of s))) acc, s).
+Proof.
+  induction n as [|n IH]; intros i acc start s HL HH; [reflexivity|].
+  destruct (skipn i (chars_of s)) as [|c rest] eqn:E; [cbn in HL; lia|].
+  destruct (skipn_cons_nth i _ _ _ 0 E) as [Hn Hs].
+  cbn [firstn forallb] in HH. apply andb_prop in HH. destruct HH as [Hc Hr].
+  cbn [read_hex]. unfold bind, peekn. cbn [peek_nth str_ops]. unfold chr in *. rewrite Hn, Hc.
+  rewrite IH; rewrite Hs; [reflexivity | cbn in HL; lia | exact Hr].
+Qed.
+
+(* state after [skip_n_non_blank 2 ;;; look n]: only the first two characters are gone *)
+Lemma after_escape_prefix (s : sc strin) n :
+  exists s', (bind (skip_n_non_blank str_ops 2) (fun _ => look str_ops n)) s = Ok (tt, s')
+             /\ chars_of s' = skipn 2 (chars_of s).
+Proof. eexists. split; reflexivity. Qed.
+
+Lemma code_length_in e n : In (e, n) code_length_table -> NoDup (map fst code_length_table) -> code_length e = n.
+Proof.
+  unfold code_length. induction code_length_table as [|[a b] l IH]; intros H ND; [contradiction|].
+  cbn [assocn]. inversion ND as [|x l' Hx ND']; subst. destruct H as [H|H].
+  - inversion H; subst. rewrite N.eqb_refl. reflexivity.
+  - destruct (N.eqb_spec a e) as [->|Hne]; [exfalso; apply Hx; change e with (fst (e, n)); apply in_map; exact H|].
+    apply IH; assumption.
+Qed.
+
+Lemma code_length_table_nodup : NoDup (map fst code_length_table).
+Proof. repeat constructor; cbn; intuition discriminate. Qed.
+
+Lemma code_length_table_disjoint e n : In (e, n) code_length_table -> assocc e escape_table = None /\ n <> 0%nat.
+Proof. cbn. intros [H|[H|[H|[]]]]; inversion H; subst; split; (reflexivity || discriminate). Qed.
+
+(* \x, \u, \U followed by fewer hex digits than required (a non-hex character or the end of input among them) *)
+Theorem hex_escape_bad_digit_rejected start (s : sc strin) n :
+  In (nth 1 (chars_of s) 0, n) code_length_table ->
+  (exists j, (j < n)%nat /\ is_hex (nth (2 + j) (chars_of s) 0) = false) ->
+  resolve_escape str_ops start s = Err 30 start.
+Proof.
+  intros Hin [j [Hj Hh]].
+  destruct (code_length_table_disjoint _ _ Hin) as [Ha Hn].
+  pose proof (code_length_in _ _ Hin code_length_table_nodup) as Hc.
+  unfold resolve_escape. unfold bind at 1. unfold peekn at 1. cbn [peek_nth str_ops]. unfold chr in *.
+  rewrite Ha, Hc. destruct (Nat.eqb_spec n 0); [contradiction|].
+  destruct (after_escape_prefix s n) as (s' & Hs' & Hch).
+  change (bind (skip_n_non_blank str_ops 2) (fun _ => bind (look str_ops n) ?k) s)
+    with (bind (bind (skip_n_non_blank str_ops 2) (fun _ => look str_ops n)) k s) at 1.
+  unfold bind at 1. rewrite Hs'. unfold bind at 1.
+  rewrite read_hex_bad; [reflexivity|]. exists j. split; [exact Hj|]. rewrite Hch, nth_skipn. exact Hh.
+Qed.
+
+(* \x, \u, \U with all required hex digits whose value is not a Unicode scalar value (a surrogate, or above 10FFFF) *)
+Theorem hex_escape_non_scalar_rejected start (s : sc strin) n :
+  In (nth 1 (chars_of s) 0, n) code_length_table ->
+  let ds := firstn n (skipn 2 (chars_of s)) in
+  length ds = n -> forallb is_hex ds = true -> is_scalar_value (hex_number ds) = false ->
+  resolve_escape str_ops start s = Err 32 start.
+Proof.
+  intros Hin ds HL HH HV.
+  destruct (code_length_table_disjoint _ _ Hin) as [Ha Hn].
+  pose proof (code_length_in _ _ Hin code_length_table_nodup) as Hc.
+  unfold resolve_escape. unfold bind at 1. unfold peekn at 1. cbn [peek_nth str_ops]. unfold chr in *.
+  rewrite Ha, Hc. destruct (Nat.eqb_spec n 0); [contradiction|].
+  destruct (after_escape_prefix s n) as (s' & Hs' & Hch).
+  change (bind (skip_n_non_blank str_ops 2) (fun _ => bind (look str_ops n) ?k) s)
+    with (bind (bind (skip_n_non_blank str_ops 2) (fun _ => look str_ops n)) k s) at 1.
+  unfold bind at 1. rewrite Hs'. unfold bind at 1.
+  rewrite read_hex_ok.
+  - cbn [skipn]. rewrite Hch. match goal with |- context [if ?b then _ else _] => replace b with false by (symmetry; exact HV) end. reflexivity.
+  - cbn [skipn]. rewrite Hch. subst ds. rewrite firstn_length in HL. unfold chr in *. lia.
+  - cbn [skipn]. rewrite Hch. exact HH.
+Qed.
+
+(* the three classes together: what [resolve_escape] accepts is exactly a table escape or a well-formed hex escape of a
+   scalar value -- stated as: it never returns Ok in any of the three ill-formed situations *)
+
+(* ---- S2: simple keys go stale (scanner.rs stale_simple_keys).  The model's guarantee, precisely:
+        a candidate key is STALE when it is possible, the scanner is in block context (flow level 0), and either it began
+        on an earlier line or more than SIMPLE_KEY_MAX characters ago.  If a stale candidate is REQUIRED (it sits at the
+        indentation of the enclosing block mapping) the scan fails (site 44: "simple key expected ':'"); otherwise every
+        stale candidate is invalidated and all others are left alone.  (In flow context the model, like the code,
+        never invalidates: C06's 1024 limit is enforced in block context only.) ---- *)
+Definition stale_key (s : sc strin) (k : simple_key) : bool :=
+  sk_possible k && (sc_flow_level s =? 0)
+  && ((m_line (sk_mark k) <? m_line (sc_mark s)) || (m_index (sk_mark k) + SIMPLE_KEY_MAX <? m_index (sc_mark s))).
+
+Theorem stale_required_key_rejected (s : sc strin) :
+  (exists k, In k (sc_sks s) /\ stale_key s k = true /\ sk_required k = true) ->
+  stale_simple_keys s = Err 44 (sc_mark s).
+Proof.
+  intros [k [Hin [Hs Hr]]]. unfold stale_simple_keys, bind, get.
+  assert (E : existsb (fun k => stale_key s k && sk_required k) (sc_sks s) = true).
+  { apply existsb_exists. exists k. split; [exact Hin|]. rewrite Hs, Hr. reflexivity. }
+  unfold stale_key in E. rewrite E. reflexivity.
+Qed.
+
+Theorem stale_keys_invalidated (s : sc strin) :
+  (forall k, In k (sc_sks s) -> stale_key s k = true -> sk_required k = false) ->
+  exists s', stale_simple_keys s = Ok (tt, s')
+    /\ sc_mark s' = sc_mark s /\ sc_tokens s' = sc_tokens s /\ sc_flow_level s' = sc_flow_level s
+    /\ length (sc_sks s') = length (sc_sks s)
+    /\ forall i k, nth_error (sc_sks s) i = Some k ->
+         exists k', nth_error (sc_sks s') i = Some k'
+           /\ (stale_key s k = true -> sk_possible k' = false)
+           /\ (stale_key s k = false -> k' = k).
+Proof.
+  intros H. unfold stale_simple_keys, bind, get.
+  assert (E : existsb (fun k => stale_key s k && sk_required k) (sc_sks s) = false).
+  { apply not_true_is_false. intros HE. apply existsb_exists in HE. destruct HE as [k [Hin Hk]].
+    apply andb_prop in Hk. destruct Hk as [Hs Hr]. rewrite (H k Hin Hs) in Hr. discriminate. }
+  unfold stale_key in E. rewrite E. eexists. split; [reflexivity|]. cbn.
+  repeat split; try reflexivity.
+  - apply map_length.
+  - intros i k Hi. rewrite nth_error_map, Hi. cbn. eexists. split; [reflexivity|].
+    fold (stale_key s k). destruct (stale_key s k); split; intros; try discriminate; reflexivity.
+Qed.
+
+(* the concrete limit: a possible key that started more than 1024 characters before the current position is stale *)
+Theorem key_longer_than_limit_is_stale (s : sc strin) k :
+  sk_possible k = true -> sc_flow_level s = 0 -> m_index (sk_mark k) + 1024 < m_index (sc_mark s) ->
+  stale_key s k = true.
+Proof.
+  intros Hp Hf Hl. unfold stale_key. rewrite Hp, Hf. cbn [andb]. change SIMPLE_KEY_MAX with 1024.
+  apply N.ltb_lt in Hl. rewrite Hl. apply orb_true_r.
+Qed.
+
+Theorem key_on_earlier_line_is_stale (s : sc strin) k :
+  sk_possible k = true -> sc_flow_level s = 0 -> m_line (sk_mark k) < m_line (sc_mark s) ->
+  stale_key s k = true.
+Proof.
+  intros Hp Hf Hl. unfold stale_key. rewrite Hp, Hf. cbn [andb].
+  apply N.ltb_lt in Hl. rewrite Hl. reflexivity.
+Qed.
+
+(* ---- S3: flow nesting limit ---- *)
+Theorem flow_level_limit_rejected (s : sc strin) :
+  sc_flow_level s = FLOW_LEVEL_MAX -> increase_flow_level s = Err 45 (sc_mark s).
+Proof. intros H. unfold increase_flow_level, bind, get. rewrite H, N.eqb_refl. reflexivity. Qed.
+
+Theorem flow_level_below_limit_increases (s : sc strin) :
+  sc_flow_level s <> FLOW_LEVEL_MAX ->
+  exists s', increase_flow_level s = Ok (tt, s') /\ sc_flow_level s' = sc_flow_level s + 1.
+Proof.
+  intros H. unfold increase_flow_level, bind, get. apply N.eqb_neq in H. rewrite H.
+  eexists. split; reflexivity.
+Qed.
+
+(* what invalidation leads to: when the ':' of "key: value" is reached in block context and the candidate key is no
+   longer possible (e.g. invalidated by [stale_simple_keys] because it is longer than 1024 characters or spans lines),
+   and no new key may start here (simple_key_allowed = false, as after any scalar on the same line), the scan fails
+   with site 99 ("mapping values are not allowed in this context") *)
+Theorem value_after_invalidated_key_rejected F (s : sc strin) k r :
+  sc_sks s = k :: r -> sk_possible k = false -> sc_flow_level s = 0 -> sc_ifms s = [] -> sc_ska s = false ->
+  nth 0 (tl (chars_of s)) 0 <> 9 ->
+  fetch_value str_ops F s = Err 99 (sc_mark s).
+Proof.
+  intros Hk Hp Hf Hi Ha Hc. unfold fetch_value.
+  unfold bind at 1. unfold get at 1. rewrite Hk. unfold bind at 1. unfold ret at 1.
+  rewrite Hi. cbn [andb]. unfold bind at 1. unfold ret at 1.
+  unfold bind at 1. unfold skip_non_blank, in_skip, adv_mark, modify, bind at 1. cbn.
+  apply N.eqb_neq in Hc. unfold chr in *. rewrite Hc. cbn. rewrite Hp. cbn. rewrite Hf, Ha. reflexivity.
 Qed.
